@@ -481,7 +481,7 @@ fn run(ctx: &mut Ctx) {
             }
         }
     }
-    let n = ctx.scaled(t.pick(120_000, 1_500_000)) / ctx.nshards as u64;
+    let n = ctx.scaled(t.pick(120_000, 15_000_000)) / ctx.nshards as u64;
     let opts = DocOpts {
         max_depth: 6,
         max_children: 4,
